@@ -8,6 +8,7 @@ CONSTANTS
   MaxSeeds = 0
   MaxSeedLen = 0
   WithTwins = FALSE
+  ResizeAlways = TRUE
   NBig = 1500
   KBig = 7
   NBigMin = 6
